@@ -22,7 +22,7 @@ class Val:
     dom  : dict of plug-in domain values
     """
 
-    __slots__ = ("kind", "tmpl", "sym", "shape", "obj", "view", "items", "dep", "cfg", "cx", "dom", "extra")
+    __slots__ = ("kind", "tmpl", "sym", "shape", "obj", "view", "items", "dep", "cfg", "cx", "dom", "extra", "mayc")
 
     def __init__(
         self,
@@ -38,6 +38,7 @@ class Val:
         cx=None,
         dom=None,
         extra=None,
+        mayc=None,
     ):
         self.kind = kind
         self.tmpl = tmpl
@@ -51,6 +52,10 @@ class Val:
         self.cx = cx
         self.dom = dom or {}
         self.extra = extra
+        # user-owned (configuration) arrays this value may be a view of
+        if mayc is None:
+            mayc = frozenset([obj]) if (isinstance(obj, tuple) and obj and obj[0] == "cfg") else _EMPTY
+        self.mayc = mayc
 
     def with_(self, **kw):
         d = {s: getattr(self, s) for s in self.__slots__}
@@ -121,12 +126,13 @@ def join(a, b):
         return a
     dep = a.dep | b.dep
     cfg = a.cfg and b.cfg
+    mayc = a.mayc | b.mayc
     if a.kind != b.kind:
         # numeric scalar vs array joins stay numeric-ish arrays
         if {a.kind, b.kind} <= {"num", "arr"}:
             obj = a.obj if a.obj == b.obj else None
-            return Val("arr", dep=dep, cfg=cfg, obj=obj, view=a.view if obj else None, dom=join_dom(a.dom, b.dom))
-        return Val("unknown", dep=dep, cfg=cfg, dom=join_dom(a.dom, b.dom))
+            return Val("arr", dep=dep, cfg=cfg, obj=obj, view=a.view if obj else None, dom=join_dom(a.dom, b.dom), mayc=mayc)
+        return Val("unknown", dep=dep, cfg=cfg, dom=join_dom(a.dom, b.dom), mayc=mayc)
     tmpl = a.tmpl if a.tmpl == b.tmpl else None
     sym = a.sym if (a.sym is not None and b.sym is not None and _sym_eq(a.sym, b.sym)) else None
     shape = join_shape(a.shape, b.shape)
@@ -153,6 +159,7 @@ def join(a, b):
         cx=cx,
         dom=join_dom(a.dom, b.dom),
         extra=extra,
+        mayc=mayc,
     )
 
 
@@ -211,3 +218,20 @@ class Obj:
         self.cfg = self.cfg and other.cfg
         self.dom = join_dom(self.dom, other.dom)
         self.stored = self.stored or other.stored
+
+
+class _MetaDomain:
+    """Trivial domain for per-value metadata that must survive views / joins
+    (IDXR: the integer range an index array was generated from)."""
+
+    def __init__(self, name):
+        self.name = name
+
+    def bottom(self):
+        return None
+
+    def join(self, a, b):
+        return a if a == b else None
+
+
+register_domain(_MetaDomain("IDXR"))
